@@ -7,10 +7,23 @@ import (
 
 	"verifharness/internal/eng"
 	"verifharness/internal/rec"
+	"verifharness/internal/sched"
 )
 
 func init() {
 	families["c03fn"] = c03fn
+	// bursts: k activations of one join back to back, nothing but gateways between the fork and the join, so that the
+	// arrivals of activation i+1 are processed while the tokens of activation i are still picking up their actions
+	caseFamilies["c03burst"] = &caseFamily{
+		Shard: 1, Par: 12,
+		Count: func(tier string) int {
+			if tier == "thorough" {
+				return 240
+			}
+			return 36
+		},
+		Run: c03burst,
+	}
 	caseFamilies["c03"] = &caseFamily{
 		Shard: 1, Par: 12,
 		Count: func(tier string) int { return len(c03cases(tier)) },
@@ -191,6 +204,71 @@ func c03run(out *rec.Out, c c03case, rng *rec.Rng, stats map[string]int) {
 		in.Quiesce(4 * timeSecond)
 		complete = in.WaitComplete(1500 * timeMillisecond)
 	}
+	in.Quiesce(2 * timeSecond)
+	for _, l := range in.Lines() {
+		out.Line("%s", l)
+	}
+	out.Line("obs final complete=%d vars=%s", rec.B(complete), in.Vars())
+	in.Stop(2 * timeSecond)
+}
+
+// start → fork(1→2k) → k flows into merge M1, k into merge M2 → join J (2→m) → D_j tasks → end
+func c03burst(out *rec.Out, idx int, rng *rec.Rng, tier string, stats map[string]int) {
+	k := 2 + idx%3
+	m := 1 + (idx/3)%2
+	g := eng.NewGraph()
+	st := g.Add("startEvent", "start", "")
+	fork := g.Add("parallelGateway", "fork", "")
+	m1 := g.Add("exclusiveGateway", "M1", "")
+	m2 := g.Add("exclusiveGateway", "M2", "")
+	join := g.Add("parallelGateway", "J", "")
+	en := g.Add("endEvent", "end", "")
+	g.Connect(st, fork, nil)
+	for i := 0; i < k; i++ {
+		g.Connect(fork, m1, nil)
+		g.Connect(fork, m2, nil)
+	}
+	g.Connect(m1, join, nil)
+	g.Connect(m2, join, nil)
+	for j := 0; j < m; j++ {
+		d := g.Add("task", fmt.Sprintf("D%d", j), "")
+		g.Connect(join, d, nil)
+		g.Connect(d, en, nil)
+	}
+	if sh := rng.Fork(); sh.Intn(2) == 0 {
+		g.ShuffleDecl(sh.Intn)
+	}
+	out.Begin("c03burst", k, m)
+	defer out.End()
+	if idx%2 == 1 {
+		ctl := sched.Install()
+		ctl.Perturb(rng.U64(), 1+idx%2)
+		defer ctl.Remove()
+		stats["perturbed_cases"]++
+	}
+	in, defs, err := eng.Start(g.XML(), nil)
+	if err != nil {
+		out.Line("harness-error %v", err)
+		return
+	}
+	for _, l := range eng.ProgLines(&(*defs.Processes())[0], g.CondRPN) {
+		out.Line("prog %s", l)
+	}
+	out.Line("prog vars -")
+	stats["cases"]++
+	stats[fmt.Sprintf("burst_k%d_m%d", k, m)]++
+	for steps := 0; steps < 40; steps++ {
+		if !in.Quiesce(4 * timeSecond) {
+			in.Note("obs noquiesce")
+			break
+		}
+		p := in.Pending()
+		if len(p) == 0 {
+			break
+		}
+		in.AnswerOK(p[rng.Intn(len(p))], nil)
+	}
+	complete := in.WaitComplete(500 * timeMillisecond)
 	in.Quiesce(2 * timeSecond)
 	for _, l := range in.Lines() {
 		out.Line("%s", l)
